@@ -123,8 +123,13 @@ class C01(PropertyCheck):
                         # (y,x) pairs: second component is an independent distinct sequence
                         vals = slim if form == "slim" else nat
                         values = [[q(v), q(-3 * v + 1)] for v in vals]
+                    # container / dtype of the caller's input (round-3 hardening): float ndarray, int64
+                    # ndarray (only when every value is an integer), plain Python list
+                    all_int = all(Fraction(x).denominator == 1 for x in
+                                  (values if struct == "array" else [c for p in values for c in p]))
+                    container = rng.choice(["float", "int", "list"] if all_int else ["float", "list"])
                     yield {"tag": tag, "kind": struct, "mask": mask_json(m), "form": form,
-                           "store_native": store_native, "values": values}
+                           "store_native": store_native, "values": values, "container": container}
 
     # ------------------------------------------------------------------ implementation
     def run_impl(self, case):
@@ -192,11 +197,22 @@ class C01(PropertyCheck):
                 s[idx] = [float(Fraction(case["edit_value"][0])), float(Fraction(case["edit_value"][1]))]
                 flat = lambda a: [qlist(p) for p in np.asarray(a).reshape(-1, 2)]
             return {"slim": flat(s.slim.array), "native": flat(s.native.array)}
+        cont = case.get("container", "float")
+
+        def box(a):
+            """present the input as the chosen container / dtype"""
+            if cont == "int":
+                return a.astype(np.int64)
+            if cont == "list":
+                return a.tolist()
+            return a
+
         if kind == "array":
             vals = np.array([float(Fraction(v)) for v in case["values"]])
             if case["form"] == "native":
                 vals = vals.reshape(h, w)
-            before = vals.copy()
+            vals = box(vals)
+            before = np.array(vals).copy()
             s = aa.Array2D(values=vals, mask=mask, store_native=sn)
             stored = np.asarray(s.array)
             out = {
@@ -204,12 +220,13 @@ class C01(PropertyCheck):
                 "slim": qlist(np.asarray(s.slim.array).ravel()),
                 "native": qlist(np.asarray(s.native.array).ravel()),
             }
-            out["input_unchanged"] = bool((vals == before).all())
+            out["input_unchanged"] = bool((np.array(vals) == before).all())
             return out
         vals = np.array([[float(Fraction(a)), float(Fraction(b))] for a, b in case["values"]])
         if case["form"] == "native":
             vals = vals.reshape(h, w, 2)
-        before = vals.copy()
+        vals = box(vals)
+        before = np.array(vals).copy()
         if kind == "grid":
             s = aa.Grid2D(values=vals, mask=mask, store_native=sn)
         else:
@@ -221,7 +238,7 @@ class C01(PropertyCheck):
             "slim": [qlist(p) for p in np.asarray(s.slim.array).reshape(-1, 2)],
             "native": [qlist(p) for p in np.asarray(s.native.array).reshape(-1, 2)],
         }
-        out["input_unchanged"] = bool((vals == before).all())
+        out["input_unchanged"] = bool((np.array(vals) == before).all())
         return out
 
     # ------------------------------------------------------------------ model
